@@ -8,59 +8,62 @@ Local Open Scope list_scope.
 From DV Require Import Model.FragSkel.
 
 Definition frag_tbl : list (string * list gstmt) := [
-  ("ArrayType", [GDec [] "Start"; GTok ["Lbrack"]; GDec [] "Lbrack"; GNode ["Len"] true; GTok []; GDec [] "Len"; GNode ["Elt"] true; GDec [] "End"]);
-  ("AssignStmt", [GDec [] "Start"; GList ["Lhs"]; GTok ["TokPos"]; GDec [] "Tok"; GList ["Rhs"]; GDec [] "End"]);
+  ("ArrayType", [GDec [] "Start"; GTok (TConst "LBRACK" "[") ["Lbrack"]; GDec [] "Lbrack"; GNode ["Len"] true; GTok (TConst "RBRACK" "]") []; GDec [] "Len"; GNode ["Elt"] true; GDec [] "End"]);
+  ("AssignStmt", [GDec [] "Start"; GList ["Lhs"]; GTok (TField ["Tok"]) ["TokPos"]; GDec [] "Tok"; GList ["Rhs"]; GDec [] "End"]);
   ("BadDecl", [GDec [] "Start"; GBad ["From"]; GDec [] "End"]);
   ("BadExpr", [GDec [] "Start"; GBad ["From"]; GDec [] "End"]);
   ("BadStmt", [GDec [] "Start"; GBad ["From"]; GDec [] "End"]);
   ("BasicLit", [GDec [] "Start"; GStr ["Value"] ["ValuePos"]; GDec [] "End"]);
-  ("BinaryExpr", [GDec [] "Start"; GNode ["X"] true; GDec [] "X"; GTok ["OpPos"]; GDec [] "Op"; GNode ["Y"] true; GDec [] "End"]);
-  ("BlockStmt", [GDec [] "Start"; GTok ["Lbrace"]; GDec [] "Lbrace"; GList ["List"]; GTok ["Rbrace"]; GDec [] "End"]);
-  ("BranchStmt", [GDec [] "Start"; GTok ["TokPos"]; GIf "n.Label != nil" [GDec [] "Tok"]; GNode ["Label"] true; GDec [] "End"]);
-  ("CallExpr", [GDec [] "Start"; GNode ["Fun"] true; GDec [] "Fun"; GTok ["Lparen"]; GDec [] "Lparen"; GList ["Args"]; GIf "n.Ellipsis.IsValid()" [GTok ["Ellipsis"]]; GIf "n.Ellipsis.IsValid()" [GDec [] "Ellipsis"]; GTok ["Rparen"]; GDec [] "End"]);
-  ("CaseClause", [GDec [] "Start"; GTok ["Case"]; GDec [] "Case"; GList ["List"]; GTok ["Colon"]; GDec [] "Colon"; GList ["Body"]; GDec [] "End"]);
-  ("ChanType", [GDec [] "Start"; GTok ["Begin"]; GIf "n.Dir == ast.RECV" [GTok []]; GDec [] "Begin"; GIf "n.Dir == ast.SEND" [GTok ["Arrow"]]; GIf "n.Dir == ast.SEND" [GDec [] "Arrow"]; GNode ["Value"] true; GDec [] "End"]);
-  ("CommClause", [GDec [] "Start"; GTok ["Case"]; GDec [] "Case"; GNode ["Comm"] true; GIf "n.Comm != nil" [GDec [] "Comm"]; GTok ["Colon"]; GDec [] "Colon"; GList ["Body"]; GDec [] "End"]);
-  ("CompositeLit", [GDec [] "Start"; GNode ["Type"] true; GIf "n.Type != nil" [GDec [] "Type"]; GTok ["Lbrace"]; GDec [] "Lbrace"; GList ["Elts"]; GTok ["Rbrace"]; GDec [] "End"]);
+  ("BinaryExpr", [GDec [] "Start"; GNode ["X"] true; GDec [] "X"; GTok (TField ["Op"]) ["OpPos"]; GDec [] "Op"; GNode ["Y"] true; GDec [] "End"]);
+  ("BlockStmt", [GDec [] "Start"; GTok (TConst "LBRACE" "{") ["Lbrace"]; GDec [] "Lbrace"; GList ["List"]; GTok (TConst "RBRACE" "}") ["Rbrace"]; GDec [] "End"]);
+  ("BranchStmt", [GDec [] "Start"; GTok (TField ["Tok"]) ["TokPos"]; GIf (CNotNil ["Label"]) [GDec [] "Tok"]; GNode ["Label"] true; GDec [] "End"]);
+  ("CallExpr", [GDec [] "Start"; GNode ["Fun"] true; GDec [] "Fun"; GTok (TConst "LPAREN" "(") ["Lparen"]; GDec [] "Lparen"; GList ["Args"]; GIf (CPosValid ["Ellipsis"]) [GTok (TConst "ELLIPSIS" "...") ["Ellipsis"]]; GIf (CPosValid ["Ellipsis"]) [GDec [] "Ellipsis"]; GTok (TConst "RPAREN" ")") ["Rparen"]; GDec [] "End"]);
+  ("CaseClause", [GDec [] "Start"; GTok (TChoice (CIsNil ["List"]) (TConst "DEFAULT" "default") (TConst "CASE" "case")) ["Case"]; GDec [] "Case"; GList ["List"]; GTok (TConst "COLON" ":") ["Colon"]; GDec [] "Colon"; GList ["Body"]; GDec [] "End"]);
+  ("ChanType", [GDec [] "Start"; GTok (TChoice (CIntEq ["Dir"] 2) (TConst "ARROW" "<-") (TConst "CHAN" "chan")) ["Begin"]; GIf (CIntEq ["Dir"] 2) [GTok (TConst "CHAN" "chan") []]; GDec [] "Begin"; GIf (CIntEq ["Dir"] 1) [GTok (TConst "ARROW" "<-") ["Arrow"]]; GIf (CIntEq ["Dir"] 1) [GDec [] "Arrow"]; GNode ["Value"] true; GDec [] "End"]);
+  ("CommClause", [GDec [] "Start"; GTok (TChoice (CIsNil ["Comm"]) (TConst "DEFAULT" "default") (TConst "CASE" "case")) ["Case"]; GDec [] "Case"; GNode ["Comm"] true; GIf (CNotNil ["Comm"]) [GDec [] "Comm"]; GTok (TConst "COLON" ":") ["Colon"]; GDec [] "Colon"; GList ["Body"]; GDec [] "End"]);
+  ("CompositeLit", [GDec [] "Start"; GNode ["Type"] true; GIf (CNotNil ["Type"]) [GDec [] "Type"]; GTok (TConst "LBRACE" "{") ["Lbrace"]; GDec [] "Lbrace"; GList ["Elts"]; GTok (TConst "RBRACE" "}") ["Rbrace"]; GDec [] "End"]);
   ("DeclStmt", [GDec [] "Start"; GNode ["Decl"] true; GDec [] "End"]);
-  ("DeferStmt", [GDec [] "Start"; GTok ["Defer"]; GDec [] "Defer"; GNode ["Call"] true; GDec [] "End"]);
-  ("Ellipsis", [GDec [] "Start"; GTok ["Ellipsis"]; GIf "n.Elt != nil" [GDec [] "Ellipsis"]; GNode ["Elt"] true; GDec [] "End"]);
-  ("EmptyStmt", [GDec [] "Start"; GIf "!n.Implicit" [GTok ["Semicolon"]]; GDec [] "End"]);
+  ("DeferStmt", [GDec [] "Start"; GTok (TConst "DEFER" "defer") ["Defer"]; GDec [] "Defer"; GNode ["Call"] true; GDec [] "End"]);
+  ("Ellipsis", [GDec [] "Start"; GTok (TConst "ELLIPSIS" "...") ["Ellipsis"]; GIf (CNotNil ["Elt"]) [GDec [] "Ellipsis"]; GNode ["Elt"] true; GDec [] "End"]);
+  ("EmptyStmt", [GDec [] "Start"; GIf (CNotBool ["Implicit"]) [GTok (TConst "ARROW" "<-") ["Semicolon"]]; GDec [] "End"]);
   ("ExprStmt", [GDec [] "Start"; GNode ["X"] true; GDec [] "End"]);
-  ("Field", [GDec [] "Start"; GList ["Names"]; GNode ["Type"] true; GIf "n.Tag != nil" [GDec [] "Type"]; GNode ["Tag"] true; GDec [] "End"]);
-  ("FieldList", [GDec [] "Start"; GIf "n.Opening.IsValid()" [GTok ["Opening"]]; GDec [] "Opening"; GList ["List"]; GIf "n.Closing.IsValid()" [GTok ["Closing"]]; GDec [] "End"]);
-  ("File", [GDec [] "Start"; GTok ["Package"]; GDec [] "Package"; GNode ["Name"] true; GDec [] "Name"; GList ["Decls"]; GList ["Imports"]]);
-  ("ForStmt", [GDec [] "Start"; GTok ["For"]; GDec [] "For"; GNode ["Init"] true; GIf "n.Init != nil" [GTok []]; GIf "n.Init != nil" [GDec [] "Init"]; GNode ["Cond"] true; GIf "n.Post != nil" [GTok []]; GIf "n.Cond != nil" [GDec [] "Cond"]; GNode ["Post"] true; GIf "n.Post != nil" [GDec [] "Post"]; GNode ["Body"] true; GDec [] "End"]);
-  ("FuncDecl", [GDec [] "Start"; GIf "true" [GTok ["Type"; "Func"]]; GDec [] "Func"; GNode ["Recv"] true; GIf "n.Recv != nil" [GDec [] "Recv"]; GNode ["Name"] true; GDec [] "Name"; GNode ["Type"; "TypeParams"] true; GIf "n.Type.TypeParams != nil" [GDec [] "TypeParams"]; GNode ["Type"; "Params"] true; GDec [] "Params"; GNode ["Type"; "Results"] true; GIf "n.Type.Results != nil" [GDec [] "Results"]; GNode ["Body"] true; GDec [] "End"]);
+  ("Field", [GDec [] "Start"; GList ["Names"]; GNode ["Type"] true; GIf (CNotNil ["Tag"]) [GDec [] "Type"]; GNode ["Tag"] true; GDec [] "End"]);
+  ("FieldList", [GDec [] "Start"; GIf (CPosValid ["Opening"]) [GTok (TConst "LPAREN" "(") ["Opening"]]; GDec [] "Opening"; GList ["List"]; GIf (CPosValid ["Closing"]) [GTok (TConst "RPAREN" ")") ["Closing"]]; GDec [] "End"]);
+  ("File", [GDec [] "Start"; GTok (TConst "PACKAGE" "package") ["Package"]; GDec [] "Package"; GNode ["Name"] true; GDec [] "Name"; GList ["Decls"]; GList ["Imports"]]);
+  ("ForStmt", [GDec [] "Start"; GTok (TConst "FOR" "for") ["For"]; GDec [] "For"; GNode ["Init"] true; GIf (CNotNil ["Init"]) [GTok (TConst "SEMICOLON" ";") []]; GIf (CNotNil ["Init"]) [GDec [] "Init"]; GNode ["Cond"] true; GIf (CNotNil ["Post"]) [GTok (TConst "SEMICOLON" ";") []]; GIf (CNotNil ["Cond"]) [GDec [] "Cond"]; GNode ["Post"] true; GIf (CNotNil ["Post"]) [GDec [] "Post"]; GNode ["Body"] true; GDec [] "End"]);
+  ("FuncDecl", [GDec [] "Start"; GIf (CTrue) [GTok (TConst "FUNC" "func") ["Type"; "Func"]]; GDec [] "Func"; GNode ["Recv"] true; GIf (CNotNil ["Recv"]) [GDec [] "Recv"]; GNode ["Name"] true; GDec [] "Name"; GNode ["Type"; "TypeParams"] true; GIf (CNotNil ["Type"; "TypeParams"]) [GDec [] "TypeParams"]; GNode ["Type"; "Params"] true; GDec [] "Params"; GNode ["Type"; "Results"] true; GIf (CNotNil ["Type"; "Results"]) [GDec [] "Results"]; GNode ["Body"] true; GDec [] "End"]);
   ("FuncLit", [GDec [] "Start"; GNode ["Type"] true; GDec [] "Type"; GNode ["Body"] true; GDec [] "End"]);
-  ("FuncType", [GDec [] "Start"; GIf "n.Func.IsValid()" [GTok ["Func"]]; GIf "n.Func.IsValid()" [GDec [] "Func"]; GNode ["TypeParams"] true; GIf "n.TypeParams != nil" [GDec [] "TypeParams"]; GNode ["Params"] true; GIf "n.Results != nil" [GDec [] "Params"]; GNode ["Results"] true; GDec [] "End"]);
-  ("GenDecl", [GDec [] "Start"; GTok ["TokPos"]; GDec [] "Tok"; GIf "n.Lparen.IsValid()" [GTok ["Lparen"]]; GIf "n.Lparen.IsValid()" [GDec [] "Lparen"]; GList ["Specs"]; GIf "n.Rparen.IsValid()" [GTok ["Rparen"]]; GDec [] "End"]);
-  ("GoStmt", [GDec [] "Start"; GTok ["Go"]; GDec [] "Go"; GNode ["Call"] true; GDec [] "End"]);
+  ("FuncType", [GDec [] "Start"; GIf (CPosValid ["Func"]) [GTok (TConst "FUNC" "func") ["Func"]]; GIf (CPosValid ["Func"]) [GDec [] "Func"]; GNode ["TypeParams"] true; GIf (CNotNil ["TypeParams"]) [GDec [] "TypeParams"]; GNode ["Params"] true; GIf (CNotNil ["Results"]) [GDec [] "Params"]; GNode ["Results"] true; GDec [] "End"]);
+  ("GenDecl", [GDec [] "Start"; GTok (TField ["Tok"]) ["TokPos"]; GDec [] "Tok"; GIf (CPosValid ["Lparen"]) [GTok (TConst "LPAREN" "(") ["Lparen"]]; GIf (CPosValid ["Lparen"]) [GDec [] "Lparen"]; GList ["Specs"]; GIf (CPosValid ["Rparen"]) [GTok (TConst "RPAREN" ")") ["Rparen"]]; GDec [] "End"]);
+  ("GoStmt", [GDec [] "Start"; GTok (TConst "GO" "go") ["Go"]; GDec [] "Go"; GNode ["Call"] true; GDec [] "End"]);
   ("Ident", [GDec [] "Start"; GDec [] "X"; GStr ["Name"] ["NamePos"]; GDec [] "End"]);
-  ("IfStmt", [GDec [] "Start"; GTok ["If"]; GDec [] "If"; GNode ["Init"] true; GIf "n.Init != nil" [GDec [] "Init"]; GNode ["Cond"] true; GDec [] "Cond"; GNode ["Body"] true; GIf "n.Else != nil" [GTok []]; GIf "n.Else != nil" [GDec [] "Else"]; GNode ["Else"] true; GDec [] "End"]);
-  ("ImportSpec", [GDec [] "Start"; GNode ["Name"] true; GIf "n.Name != nil" [GDec [] "Name"]; GNode ["Path"] true; GDec [] "End"]);
-  ("IncDecStmt", [GDec [] "Start"; GNode ["X"] true; GDec [] "X"; GTok ["TokPos"]; GDec [] "End"]);
-  ("IndexExpr", [GDec [] "Start"; GNode ["X"] true; GDec [] "X"; GTok ["Lbrack"]; GDec [] "Lbrack"; GNode ["Index"] true; GDec [] "Index"; GTok ["Rbrack"]; GDec [] "End"]);
-  ("IndexListExpr", [GDec [] "Start"; GNode ["X"] true; GDec [] "X"; GTok ["Lbrack"]; GDec [] "Lbrack"; GList ["Indices"]; GDec [] "Indices"; GTok ["Rbrack"]; GDec [] "End"]);
-  ("InterfaceType", [GDec [] "Start"; GTok ["Interface"]; GDec [] "Interface"; GNode ["Methods"] true; GDec [] "End"]);
-  ("KeyValueExpr", [GDec [] "Start"; GNode ["Key"] true; GDec [] "Key"; GTok ["Colon"]; GDec [] "Colon"; GNode ["Value"] true; GDec [] "End"]);
-  ("LabeledStmt", [GDec [] "Start"; GNode ["Label"] true; GDec [] "Label"; GTok ["Colon"]; GDec [] "Colon"; GNode ["Stmt"] true; GDec [] "End"]);
-  ("MapType", [GDec [] "Start"; GTok ["Map"]; GTok []; GDec [] "Map"; GNode ["Key"] true; GTok []; GDec [] "Key"; GNode ["Value"] true; GDec [] "End"]);
+  ("IfStmt", [GDec [] "Start"; GTok (TConst "IF" "if") ["If"]; GDec [] "If"; GNode ["Init"] true; GIf (CNotNil ["Init"]) [GDec [] "Init"]; GNode ["Cond"] true; GDec [] "Cond"; GNode ["Body"] true; GIf (CNotNil ["Else"]) [GTok (TConst "ELSE" "else") []]; GIf (CNotNil ["Else"]) [GDec [] "Else"]; GNode ["Else"] true; GDec [] "End"]);
+  ("ImportSpec", [GDec [] "Start"; GNode ["Name"] true; GIf (CNotNil ["Name"]) [GDec [] "Name"]; GNode ["Path"] true; GDec [] "End"]);
+  ("IncDecStmt", [GDec [] "Start"; GNode ["X"] true; GDec [] "X"; GTok (TField ["Tok"]) ["TokPos"]; GDec [] "End"]);
+  ("IndexExpr", [GDec [] "Start"; GNode ["X"] true; GDec [] "X"; GTok (TConst "LBRACK" "[") ["Lbrack"]; GDec [] "Lbrack"; GNode ["Index"] true; GDec [] "Index"; GTok (TConst "RBRACK" "]") ["Rbrack"]; GDec [] "End"]);
+  ("IndexListExpr", [GDec [] "Start"; GNode ["X"] true; GDec [] "X"; GTok (TConst "LBRACK" "[") ["Lbrack"]; GDec [] "Lbrack"; GList ["Indices"]; GDec [] "Indices"; GTok (TConst "RBRACK" "]") ["Rbrack"]; GDec [] "End"]);
+  ("InterfaceType", [GDec [] "Start"; GTok (TConst "INTERFACE" "interface") ["Interface"]; GDec [] "Interface"; GNode ["Methods"] true; GDec [] "End"]);
+  ("KeyValueExpr", [GDec [] "Start"; GNode ["Key"] true; GDec [] "Key"; GTok (TConst "COLON" ":") ["Colon"]; GDec [] "Colon"; GNode ["Value"] true; GDec [] "End"]);
+  ("LabeledStmt", [GDec [] "Start"; GNode ["Label"] true; GDec [] "Label"; GTok (TConst "COLON" ":") ["Colon"]; GDec [] "Colon"; GNode ["Stmt"] true; GDec [] "End"]);
+  ("MapType", [GDec [] "Start"; GTok (TConst "MAP" "map") ["Map"]; GTok (TConst "LBRACK" "[") []; GDec [] "Map"; GNode ["Key"] true; GTok (TConst "RBRACK" "]") []; GDec [] "Key"; GNode ["Value"] true; GDec [] "End"]);
   ("Package", [GList ["Files"]]);
-  ("ParenExpr", [GDec [] "Start"; GTok ["Lparen"]; GDec [] "Lparen"; GNode ["X"] true; GDec [] "X"; GTok ["Rparen"]; GDec [] "End"]);
-  ("RangeStmt", [GDec [] "Start"; GTok ["For"]; GIf "n.Key != nil" [GDec [] "For"]; GNode ["Key"] true; GIf "n.Value != nil" [GTok []]; GIf "n.Key != nil" [GDec [] "Key"]; GNode ["Value"] true; GIf "n.Value != nil" [GDec [] "Value"]; GIf "n.Tok != token.ILLEGAL" [GTok ["TokPos"]]; GTok []; GDec [] "Range"; GNode ["X"] true; GDec [] "X"; GNode ["Body"] true; GDec [] "End"]);
-  ("ReturnStmt", [GDec [] "Start"; GTok ["Return"]; GDec [] "Return"; GList ["Results"]; GDec [] "End"]);
-  ("SelectStmt", [GDec [] "Start"; GTok ["Select"]; GDec [] "Select"; GNode ["Body"] true; GDec [] "End"]);
-  ("SelectorExpr", [GDec [] "Start"; GNode ["X"] true; GTok []; GDec [] "X"; GNode ["Sel"] true; GDec [] "End"]);
-  ("SendStmt", [GDec [] "Start"; GNode ["Chan"] true; GDec [] "Chan"; GTok ["Arrow"]; GDec [] "Arrow"; GNode ["Value"] true; GDec [] "End"]);
-  ("SliceExpr", [GDec [] "Start"; GNode ["X"] true; GDec [] "X"; GTok ["Lbrack"]; GIf "n.Low != nil" [GDec [] "Lbrack"]; GNode ["Low"] true; GTok []; GDec [] "Low"; GNode ["High"] true; GIf "n.Slice3" [GTok []]; GIf "n.High != nil" [GDec [] "High"]; GNode ["Max"] true; GIf "n.Max != nil" [GDec [] "Max"]; GTok ["Rbrack"]; GDec [] "End"]);
-  ("StarExpr", [GDec [] "Start"; GTok ["Star"]; GDec [] "Star"; GNode ["X"] true; GDec [] "End"]);
-  ("StructType", [GDec [] "Start"; GTok ["Struct"]; GDec [] "Struct"; GNode ["Fields"] true; GDec [] "End"]);
-  ("SwitchStmt", [GDec [] "Start"; GTok ["Switch"]; GDec [] "Switch"; GNode ["Init"] true; GIf "n.Init != nil" [GDec [] "Init"]; GNode ["Tag"] true; GIf "n.Tag != nil" [GDec [] "Tag"]; GNode ["Body"] true; GDec [] "End"]);
-  ("TypeAssertExpr", [GDec [] "Start"; GNode ["X"] true; GTok []; GDec [] "X"; GTok ["Lparen"]; GDec [] "Lparen"; GNode ["Type"] true; GIf "n.Type == nil" [GTok []]; GDec [] "Type"; GTok ["Rparen"]; GDec [] "End"]);
-  ("TypeSpec", [GDec [] "Start"; GNode ["Name"] true; GIf "n.Assign.IsValid()" [GTok ["Assign"]]; GDec [] "Name"; GNode ["TypeParams"] true; GIf "n.TypeParams != nil" [GDec [] "TypeParams"]; GNode ["Type"] true; GDec [] "End"]);
-  ("TypeSwitchStmt", [GDec [] "Start"; GTok ["Switch"]; GDec [] "Switch"; GNode ["Init"] true; GIf "n.Init != nil" [GDec [] "Init"]; GNode ["Assign"] true; GDec [] "Assign"; GNode ["Body"] true; GDec [] "End"]);
-  ("UnaryExpr", [GDec [] "Start"; GTok ["OpPos"]; GDec [] "Op"; GNode ["X"] true; GDec [] "End"]);
-  ("ValueSpec", [GDec [] "Start"; GList ["Names"]; GNode ["Type"] true; GIf "n.Values != nil" [GTok []]; GIf "n.Values != nil" [GDec [] "Assign"]; GList ["Values"]; GDec [] "End"])].
+  ("ParenExpr", [GDec [] "Start"; GTok (TConst "LPAREN" "(") ["Lparen"]; GDec [] "Lparen"; GNode ["X"] true; GDec [] "X"; GTok (TConst "RPAREN" ")") ["Rparen"]; GDec [] "End"]);
+  ("RangeStmt", [GDec [] "Start"; GTok (TConst "FOR" "for") ["For"]; GIf (CNotNil ["Key"]) [GDec [] "For"]; GNode ["Key"] true; GIf (CNotNil ["Value"]) [GTok (TConst "COMMA" ",") []]; GIf (CNotNil ["Key"]) [GDec [] "Key"]; GNode ["Value"] true; GIf (CNotNil ["Value"]) [GDec [] "Value"]; GIf (CTokNe ["Tok"] "ILLEGAL") [GTok (TField ["Tok"]) ["TokPos"]]; GTok (TConst "RANGE" "range") []; GDec [] "Range"; GNode ["X"] true; GDec [] "X"; GNode ["Body"] true; GDec [] "End"]);
+  ("ReturnStmt", [GDec [] "Start"; GTok (TConst "RETURN" "return") ["Return"]; GDec [] "Return"; GList ["Results"]; GDec [] "End"]);
+  ("SelectStmt", [GDec [] "Start"; GTok (TConst "SELECT" "select") ["Select"]; GDec [] "Select"; GNode ["Body"] true; GDec [] "End"]);
+  ("SelectorExpr", [GDec [] "Start"; GNode ["X"] true; GTok (TConst "PERIOD" ".") []; GDec [] "X"; GNode ["Sel"] true; GDec [] "End"]);
+  ("SendStmt", [GDec [] "Start"; GNode ["Chan"] true; GDec [] "Chan"; GTok (TConst "ARROW" "<-") ["Arrow"]; GDec [] "Arrow"; GNode ["Value"] true; GDec [] "End"]);
+  ("SliceExpr", [GDec [] "Start"; GNode ["X"] true; GDec [] "X"; GTok (TConst "LBRACK" "[") ["Lbrack"]; GIf (CNotNil ["Low"]) [GDec [] "Lbrack"]; GNode ["Low"] true; GTok (TConst "COLON" ":") []; GDec [] "Low"; GNode ["High"] true; GIf (CBool ["Slice3"]) [GTok (TConst "COLON" ":") []]; GIf (CNotNil ["High"]) [GDec [] "High"]; GNode ["Max"] true; GIf (CNotNil ["Max"]) [GDec [] "Max"]; GTok (TConst "RBRACK" "]") ["Rbrack"]; GDec [] "End"]);
+  ("StarExpr", [GDec [] "Start"; GTok (TConst "MUL" "*") ["Star"]; GDec [] "Star"; GNode ["X"] true; GDec [] "End"]);
+  ("StructType", [GDec [] "Start"; GTok (TConst "STRUCT" "struct") ["Struct"]; GDec [] "Struct"; GNode ["Fields"] true; GDec [] "End"]);
+  ("SwitchStmt", [GDec [] "Start"; GTok (TConst "SWITCH" "switch") ["Switch"]; GDec [] "Switch"; GNode ["Init"] true; GIf (CNotNil ["Init"]) [GDec [] "Init"]; GNode ["Tag"] true; GIf (CNotNil ["Tag"]) [GDec [] "Tag"]; GNode ["Body"] true; GDec [] "End"]);
+  ("TypeAssertExpr", [GDec [] "Start"; GNode ["X"] true; GTok (TConst "PERIOD" ".") []; GDec [] "X"; GTok (TConst "LPAREN" "(") ["Lparen"]; GDec [] "Lparen"; GNode ["Type"] true; GIf (CIsNil ["Type"]) [GTok (TConst "TYPE" "type") []]; GDec [] "Type"; GTok (TConst "RPAREN" ")") ["Rparen"]; GDec [] "End"]);
+  ("TypeSpec", [GDec [] "Start"; GNode ["Name"] true; GIf (CPosValid ["Assign"]) [GTok (TConst "ASSIGN" "=") ["Assign"]]; GDec [] "Name"; GNode ["TypeParams"] true; GIf (CNotNil ["TypeParams"]) [GDec [] "TypeParams"]; GNode ["Type"] true; GDec [] "End"]);
+  ("TypeSwitchStmt", [GDec [] "Start"; GTok (TConst "SWITCH" "switch") ["Switch"]; GDec [] "Switch"; GNode ["Init"] true; GIf (CNotNil ["Init"]) [GDec [] "Init"]; GNode ["Assign"] true; GDec [] "Assign"; GNode ["Body"] true; GDec [] "End"]);
+  ("UnaryExpr", [GDec [] "Start"; GTok (TField ["Op"]) ["OpPos"]; GDec [] "Op"; GNode ["X"] true; GDec [] "End"]);
+  ("ValueSpec", [GDec [] "Start"; GList ["Names"]; GNode ["Type"] true; GIf (CNotNil ["Values"]) [GTok (TConst "ASSIGN" "=") []]; GIf (CNotNil ["Values"]) [GDec [] "Assign"]; GList ["Values"]; GDec [] "End"])].
 
 Definition frag_frame_ok : bool := true.
+
+Definition ast_stmt_kinds : list string := ["BadStmt"; "DeclStmt"; "EmptyStmt"; "LabeledStmt"; "ExprStmt"; "SendStmt"; "IncDecStmt"; "AssignStmt"; "GoStmt"; "DeferStmt"; "ReturnStmt"; "BranchStmt"; "BlockStmt"; "IfStmt"; "CaseClause"; "SwitchStmt"; "TypeSwitchStmt"; "CommClause"; "SelectStmt"; "ForStmt"; "RangeStmt"].
+Definition ast_decl_kinds : list string := ["BadDecl"; "GenDecl"; "FuncDecl"].
